@@ -138,7 +138,7 @@ def gen_detection(rng: Random, fields: list[str] | None = None, special: float =
             chain = k0.split("|")[1:]
             other = pick(rng, [f for f in (fields or FIELDS) if f != k0.split("|")[0]])
             v0 = d[k0]
-            d["|".join([other] + chain)] = v0 if not isinstance(v0, str) else v0 + "2"
+            d["|".join([other] + chain)] = copy.deepcopy(v0)
         return d
     if r < 0.80:  # list of maps
         out = []
